@@ -117,6 +117,9 @@ pub struct Event {
     pub t1: u64,
     pub res: Res,
     pub polls: u32,
+    /// scripted scenarios only: a time at which the harness had confirmed that
+    /// this operation's first (register / claim) step had already happened
+    pub reg_t: Option<u64>,
 }
 impl Event {
     pub fn opid(&self) -> u32 {
@@ -156,6 +159,15 @@ pub struct ThreadCtx<T: Payload> {
     // NOTE field order: the stream borrows `stream_owner`, so it is declared (and dropped) first
     stream: Option<Pin<Box<ReceiveStream<'static, T>>>>,
     stream_owner: Option<Box<RH<T>>>,
+    // scripted polling: a future this thread owns across several steps (declared before its owner handle)
+    held_r: Option<(Pin<Box<ReceiveFuture<'static, T>>>, usize)>,
+    held_r_owner: Option<Box<RH<T>>>,
+    held_s: Option<(Pin<Box<SendFuture<'static, T>>>, usize)>,
+    held_s_owner: Option<Box<SH<T>>>,
+    /// counting wakers for scripted polling; `last_waker` = index last supplied to the held future
+    pub wakers: Vec<std::sync::Arc<WakeCell>>,
+    pub last_waker_r: usize,
+    pub last_waker_s: usize,
     pub senders: Vec<SH<T>>,
     pub receivers: Vec<RH<T>>,
     pub log: Vec<Event>,
@@ -169,7 +181,7 @@ pub struct ThreadCtx<T: Payload> {
 
 impl<T: Payload> ThreadCtx<T> {
     pub fn new(th: u16, tag_lo: Tag, tag_hi: Tag) -> Self {
-        ThreadCtx { th, idx: 0, stream: None, stream_owner: None, senders: vec![], receivers: vec![], log: Vec::new(), next_tag: tag_lo, tag_end: tag_hi, pat: th as u64, status: None }
+        ThreadCtx { th, idx: 0, stream: None, stream_owner: None, held_r: None, held_r_owner: None, held_s: None, held_s_owner: None, wakers: (0..3).map(|i| WakeCell::new(100 + i, None)).collect(), last_waker_r: 0, last_waker_s: 0, senders: vec![], receivers: vec![], log: Vec::new(), next_tag: tag_lo, tag_end: tag_hi, pat: th as u64, status: None }
     }
     fn mk(&mut self) -> (T, Tag) {
         assert!(self.next_tag < self.tag_end, "thread {} ran out of tags", self.th);
@@ -226,7 +238,7 @@ impl<T: Payload> ThreadCtx<T> {
             s.leave();
         }
         debug_assert!(made.is_none());
-        self.log.push(Event { th: self.th, idx, op, tag, t0, t1, res, polls });
+        self.log.push(Event { th: self.th, idx, op, tag, t0, t1, res, polls, reg_t: None });
         Some(self.log.len() - 1)
     }
 
@@ -574,9 +586,139 @@ impl<T: Payload> ThreadCtx<T> {
         }
     }
 
+    // ---- scripted polling of a future owned across steps ---------------------------------
+    // The whole life of the future is ONE recorded event, shaped like
+    // `ARecvDrop` / `ASendDrop` (t0 = before the first poll, t1 = after the
+    // poll that returned Ready, or after the drop).
+    /// creates a receive future on this thread's most recent receiver and polls it once with waker `w`
+    pub fn rfut_start(&mut self, w: usize) -> Poll<()> {
+        assert!(self.held_r.is_none());
+        let h = Box::new(self.receivers.pop().expect("receiver"));
+        let a: &'static AsyncReceiver<T> = unsafe { &*(h.asy() as *const AsyncReceiver<T>) };
+        let fut = Box::pin(a.recv());
+        self.held_r_owner = Some(h);
+        let idx = self.idx;
+        self.idx += 1;
+        self.log.push(Event { th: self.th, idx, op: Op::ARecvDrop(200), tag: None, t0: now(), t1: 0, res: Res::Cancelled(None), polls: 0, reg_t: None });
+        self.held_r = Some((fut, self.log.len() - 1));
+        self.rfut_poll(w)
+    }
+    /// (re-)polls the held receive future with waker `w`; on Ready the event is completed
+    pub fn rfut_poll(&mut self, w: usize) -> Poll<()> {
+        let (fut, k) = self.held_r.as_mut().expect("held receive future");
+        let k = *k;
+        let wk = waker_of(&self.wakers[w]);
+        self.last_waker_r = w;
+        payload::set_cur_op(self.log[k].opid());
+        let r = poll_once(fut.as_mut(), &wk);
+        self.log[k].polls += 1;
+        let out = match r {
+            Poll::Pending => Poll::Pending,
+            Poll::Ready(r) => {
+                self.log[k].res = match r {
+                    Ok(v) => Self::recvd(v),
+                    Err(ReceiveError::Closed) => Res::Closed,
+                    Err(ReceiveError::SendClosed) => Res::SendClosed,
+                };
+                self.log[k].t1 = now();
+                Poll::Ready(())
+            }
+        };
+        payload::set_cur_op(0);
+        if out.is_ready() {
+            self.held_r = None;
+            self.receivers.push(*self.held_r_owner.take().unwrap());
+        }
+        out
+    }
+    /// drops the held receive future (cancellation); the event ends as `Cancelled`
+    pub fn rfut_drop(&mut self) {
+        let (fut, k) = self.held_r.take().expect("held receive future");
+        payload::set_cur_op(self.log[k].opid());
+        if let Some(s) = self.status {
+            s.enter(true, self.log[k].opid());
+        }
+        drop(fut);
+        if let Some(s) = self.status {
+            s.leave();
+        }
+        payload::set_cur_op(0);
+        self.log[k].t1 = now();
+        self.receivers.push(*self.held_r_owner.take().unwrap());
+    }
+    pub fn sfut_start(&mut self, w: usize) -> Poll<()> {
+        assert!(self.held_s.is_none());
+        let h = Box::new(self.senders.pop().expect("sender"));
+        let a: &'static AsyncSender<T> = unsafe { &*(h.asy() as *const AsyncSender<T>) };
+        let (v, tag) = self.mk();
+        let fut = Box::pin(a.send(v));
+        self.held_s_owner = Some(h);
+        let idx = self.idx;
+        self.idx += 1;
+        self.log.push(Event { th: self.th, idx, op: Op::ASendDrop(200), tag: Some(tag), t0: now(), t1: 0, res: Res::Cancelled(None), polls: 0, reg_t: None });
+        self.held_s = Some((fut, self.log.len() - 1));
+        self.sfut_poll(w)
+    }
+    pub fn sfut_poll(&mut self, w: usize) -> Poll<()> {
+        let (fut, k) = self.held_s.as_mut().expect("held send future");
+        let k = *k;
+        let wk = waker_of(&self.wakers[w]);
+        self.last_waker_s = w;
+        payload::set_cur_op(self.log[k].opid());
+        let r = poll_once(fut.as_mut(), &wk);
+        self.log[k].polls += 1;
+        let out = match r {
+            Poll::Pending => Poll::Pending,
+            Poll::Ready(r) => {
+                self.log[k].res = match r {
+                    Ok(()) => Res::Ok,
+                    Err(SendError::Closed) => Res::Closed,
+                    Err(SendError::ReceiveClosed) => Res::RecvClosed,
+                };
+                self.log[k].t1 = now();
+                Poll::Ready(())
+            }
+        };
+        payload::set_cur_op(0);
+        if out.is_ready() {
+            self.held_s = None;
+            self.senders.push(*self.held_s_owner.take().unwrap());
+        }
+        out
+    }
+    pub fn sfut_drop(&mut self) {
+        let (fut, k) = self.held_s.take().expect("held send future");
+        payload::set_cur_op(self.log[k].opid());
+        if let Some(s) = self.status {
+            s.enter(true, self.log[k].opid());
+        }
+        drop(fut);
+        if let Some(s) = self.status {
+            s.leave();
+        }
+        payload::set_cur_op(0);
+        self.log[k].t1 = now();
+        self.senders.push(*self.held_s_owner.take().unwrap());
+    }
+    pub fn has_held_r(&self) -> bool {
+        self.held_r.is_some()
+    }
+    pub fn has_held_s(&self) -> bool {
+        self.held_s.is_some()
+    }
+    pub fn last_event(&mut self) -> &mut Event {
+        self.log.last_mut().unwrap()
+    }
+
     /// Epilogue: drop the stream and every handle this thread still owns, each
     /// as its own recorded event (so the handle ledger is complete).
     pub fn finish(&mut self) {
+        if self.held_r.is_some() {
+            self.rfut_drop();
+        }
+        if self.held_s.is_some() {
+            self.sfut_drop();
+        }
         if let Some(s) = self.stream.take() {
             // dropping a stream whose future is idle touches nothing observable; not an event
             drop(s);
